@@ -71,6 +71,10 @@ class Plane(BaseGeometry):
         geometry_dict.update({
             'radius': np.inf,
         })
+        # a conic constant set on a flat surface is kept for the time the
+        # surface gets a radius again
+        if hasattr(self, 'k'):
+            geometry_dict['conic'] = self.k
         return geometry_dict
 
     @classmethod
@@ -84,4 +88,7 @@ class Plane(BaseGeometry):
             Plane: The plane geometry.
         """
         cs = CoordinateSystem.from_dict(data['cs'])
-        return cls(cs)
+        plane = cls(cs)
+        if 'conic' in data:
+            plane.k = data['conic']
+        return plane
